@@ -49,8 +49,18 @@ def check(ctx):
     # cqueue
     CP = "may::cqueue::Cqueue::check_panic"
     RU = Call(r"std::panic::resume_unwind", transitive=False)
-    ctx.order(CP, atomic("store", "may::cqueue::Cqueue.is_panicking"), RU, "cqueue/mark-then-reraise", "is_panicking is set before the payload is re-raised (the drain in Drop must not re-raise again)")
+    ctx.order(CP, atomic("store|swap", "may::cqueue::Cqueue.is_panicking"), RU, "cqueue/mark-then-reraise", "is_panicking is set before the payload is re-raised (the drain in Drop must not re-raise again)")
     ctx.order(CP, Call(r"may::join::JoinHandle::join", transitive=False), RU, "cqueue/join-then-reraise", "the payload re-raised in the poller is the joined selector's")
+    ctx.must_call(CP, Call(r"may::join::JoinHandle::join", transitive=False), "cqueue/always-joins", "every Done event joins its selector, also after a panic was already reported (only the join tells that the selector has really ended)")
+    f = ctx.fn("R-PAIR", CP, "cqueue/lock-released-before-join")
+    if f is not None:
+        js = ctx.an.sites(f, Call(r"may::join::JoinHandle::join", transitive=False), "must")
+        gd = set(pt for pt in f.points() if f.is_term(pt) and f.node(pt)["t"] == "drop" and "may::sync::mutex::MutexGuard" in f.node(pt)["ty"])
+        r = ctx.an.reach(f, [Point(0, 0)], blocked=gd)
+        bad = [j for j in js if j in r]
+        ctx.ob("R-PAIR", CP, "cqueue/lock-released-before-join", bool(gd) and bool(js) and not bad,
+               "the selectors lock is released before the join / re-raise (an unwind holding it would poison it and the drain in Drop would abort)" if gd and js and not bad else
+               "check_panic joins / re-raises while holding the selectors MutexGuard: the unwind poisons the mutex, Drop for Cqueue's lock().unwrap() then panics while unwinding (abort)", f.where((bad or sorted(js) or [None])[0]))
     ctx.guarded(CP, RU, lambda a: a.kind == "variant" and a.name == "Err", "cqueue/reraise-only-on-panic", "only a panicked selector is re-raised", pred_label="edge `join()` is Err")
     f = ctx.fn("R-EXIT", CP, "cqueue/cancel-not-reraised")
     if f is not None:
